@@ -63,22 +63,24 @@ ANCHORS = [
     "gemseo.algos.doe.openturns._algos.base_ot_stratified_doe:BaseOTStratifiedDOE.generate_samples",
     "gemseo.algos.doe.openturns._algos.ot_sobol_doe:OTSobolDOE.generate_samples",
 ]
-# about half of what seed 0 observed (on a machine shared with ~20 other jobs, where every shard stopped on its time
-# budget; an unloaded 16-core run completes all rounds and observes 2x (quick) to 4x (thorough) more)
+# about 40 % of what a complete seed-0 run observes (quick: 19.9k cases, thorough: 337k cases); the margin below one
+# half leaves room for shards that stop on their time budget on a loaded machine
 MIN_COUNTERS = {
-    "quick": {"designs_judged": 4600, "count_oracle_evaluations": 4600, "count_checked_against_request": 3200,
-              "bounds_rows_checked": 210000, "integer_rows_checked": 145000, "designs_with_integer_variables": 3000,
-              "unit_oracle_evaluations": 4600, "image_rows_checked": 210000, "reproducibility_oracle_evaluations": 4600,
-              "same_instance_repeats_with_explicit_seed": 1400, "flag_oracle_evaluations": 4600,
-              "execute_oracle_evaluations": 1300, "database_rows_checked": 48000, "execute_image_rows_checked": 60000,
-              "custom_rows_compared": 800, "refusals": 300, "directed_cases": 600},
-    "thorough": {"designs_judged": 34000, "count_oracle_evaluations": 34000, "count_checked_against_request": 24000,
-                 "bounds_rows_checked": 1500000, "integer_rows_checked": 1000000, "designs_with_integer_variables": 22000,
-                 "unit_oracle_evaluations": 34000, "image_rows_checked": 1500000,
-                 "reproducibility_oracle_evaluations": 34000, "same_instance_repeats_with_explicit_seed": 10000,
-                 "flag_oracle_evaluations": 34000, "execute_oracle_evaluations": 10000, "database_rows_checked": 350000,
-                 "execute_image_rows_checked": 450000, "custom_rows_compared": 6000, "refusals": 2300,
-                 "directed_cases": 600},
+    "quick": {"designs_judged": 7400, "count_oracle_evaluations": 7400, "count_checked_against_request": 5200,
+              "bounds_rows_checked": 340000, "integer_rows_checked": 230000, "designs_with_integer_variables": 4800,
+              "unit_oracle_evaluations": 7400, "image_rows_checked": 340000,
+              "reproducibility_oracle_evaluations": 7400, "same_instance_repeats_with_explicit_seed": 2300,
+              "flag_oracle_evaluations": 7400, "execute_oracle_evaluations": 2100, "database_rows_checked": 76000,
+              "execute_image_rows_checked": 96000, "custom_rows_compared": 1500, "refusals": 500,
+              "directed_cases": 600},
+    "thorough": {"designs_judged": 120000, "count_oracle_evaluations": 120000,
+                 "count_checked_against_request": 88000, "bounds_rows_checked": 5700000,
+                 "integer_rows_checked": 3900000, "designs_with_integer_variables": 82000,
+                 "unit_oracle_evaluations": 120000, "image_rows_checked": 5700000,
+                 "reproducibility_oracle_evaluations": 120000, "same_instance_repeats_with_explicit_seed": 39000,
+                 "flag_oracle_evaluations": 120000, "execute_oracle_evaluations": 37000,
+                 "database_rows_checked": 1200000, "execute_image_rows_checked": 1600000,
+                 "custom_rows_compared": 26000, "refusals": 8500, "directed_cases": 600},
 }
 SHARD_TIMEOUT = {"quick": 400, "thorough": 2400}
 
@@ -95,13 +97,13 @@ OUTSIDE_LIST = ["PYDOE_BBDESIGN", "PYDOE_CCDESIGN", "PYDOE_FF2N", "PYDOE_PBDESIG
 N_EXACT = set(SCIPY) - {"PoissonDisk"} | set(OT_NEXACT) | {"PYDOE_LHS", "DiagonalDOE"}
 ALGOS = (["CustomDOE", "DiagonalDOE", "MorrisDOE", "OATDOE"] + OT_NEXACT + list(OT_STRATIFIED) + FULLFACT
          + ["OT_SOBOL_INDICES", "PYDOE_LHS"] + OUTSIDE_LIST + SCIPY)
-for _t, _k in (("quick", 15), ("thorough", 100)):  # mapping forms of CustomDOE with keys not in design-space order
+for _t, _k in (("quick", 40), ("thorough", 700)):  # mapping forms of CustomDOE with keys not in design-space order
     MIN_COUNTERS[_t]["custom_designs_with_shuffled_keys:dict2d"] = _k
     MIN_COUNTERS[_t]["custom_designs_with_shuffled_keys:listdict"] = _k
     MIN_COUNTERS[_t]["custom_designs_with_shuffled_keys_and_mixed_sizes"] = _k
 for _a in ALGOS:  # every algorithm of the factory must have produced designs
-    MIN_COUNTERS["quick"][f"designs:{_a}"] = 120
-    MIN_COUNTERS["thorough"][f"designs:{_a}"] = 900
+    MIN_COUNTERS["quick"][f"designs:{_a}"] = 190
+    MIN_COUNTERS["thorough"][f"designs:{_a}"] = 3000
 SEED_KEY = {**{a: "seed" for a in SCIPY + OT_NEXACT + list(OT_STRATIFIED) + ["OT_FULLFACT", "OT_SOBOL_INDICES"]},
             "PYDOE_LHS": "random_state"}
 RANDOMISED = {"Halton", "LHS", "MC", "PoissonDisk", "Sobol", "OT_RANDOM", "OT_MONTE_CARLO", "OT_OPT_LHS", "OT_LHS",
